@@ -121,7 +121,7 @@ def decoder_side(chk, program, encfn):
     selfo = A.AObj(sequence_counter=A.AInt(None, [('seq', 0), ('seq', 1), ('seq', 2)]))
     it = A.Interp()
     try:
-        frames = it.call_function(encfn, [selfo, A.AInt(None), A.AInt(None), A.AInt(None), A.AInt(None), A.ABytes([A.sym_byte('payload', i) for i in range(20)])])
+        frames = it.call_function(encfn, [selfo, A.AInt(None), A.AInt(None), A.AInt(None), A.AInt(None), A.ABytes([A.sym_byte('payload', i) for i in range(223)])])
     except A.Unknown as u:
         frames = None
         chk.unknown('FP-HDR-DEC', 'encoder byte0 provenance', str(u), ENC, encfn.lineno)
